@@ -125,5 +125,39 @@ pub open spec fn sstr(s: Seq<char>) -> Seq<char> { seq!['"'] + sesc(s) + seq!['"
 
 //@@ push_js_string
 
+// ---- shims for the lifted loop body of RegisterCtx::to_array (rule E3) ----
+// the two trait methods the body calls; what they return is the (assumed identifier-charset) name
+pub trait Locale: Copy {
+    spec fn name(self) -> Seq<char>;
+    fn as_str(self) -> (r: &'static str) ensures r@ == self.name();
+}
+pub trait TranslationUnitId: Copy {
+    spec fn id_name(self) -> Option<Seq<char>>;
+    fn to_str(self) -> (r: Option<&'static str>)
+        ensures r is Some <==> self.id_name() is Some, r matches Some(x) ==> x@ == self.id_name()->0;
+}
+pub assume_specification<T>[ std::mem::replace::<T> ](dest: &mut T, src: T) -> (r: T)
+    ensures r == *old(dest), *final(dest) == src;
+
+/// the first n strings of a unit, as script-safe literals separated by commas
+pub open spec fn joined(vals: Seq<&'static str>, n: int) -> Seq<char>
+    decreases n
+{
+    if n <= 0 { Seq::empty() }
+    else if n == 1 { sstr(vals[0]@) }
+    else { joined(vals, n - 1) + seq![','] + sstr(vals[n - 1]@) }
+}
+pub open spec fn lit(s: &str) -> Seq<char> { s@ }
+/// C17: what one registered translation unit contributes to the embedded array:
+/// `{"locale":"<locale>","id":"<id>"|null,"values":[<its strings, in order>]}` preceded by a comma unless first
+pub open spec fn unit_text<L: Locale, I: TranslationUnitId>(first: bool, locale: L, id: I, vals: Seq<&'static str>) -> Seq<char> {
+    (if first { Seq::<char>::empty() } else { seq![','] })
+    + lit("{\"locale\":\"") + locale.name()
+    + (match id.id_name() { Some(n) => lit("\",\"id\":\"") + n + lit("\",\"values\":["), None => lit("\",\"id\":null,\"values\":[") })
+    + joined(vals, vals.len() as int) + lit("]}")
+}
+
+//@@ emit_unit
+
 } // verus!
 fn main() {}
